@@ -47,12 +47,23 @@ STATEMENTS = [
     'class Derived(object): pass', 'class Derived(Base, object, metaclass=Meta): pass', 'class Derived(module.object): pass', 'class Derived(object()): pass',
     'raise ValueError()', 'raise ValueError', 'raise ValueError("message")', 'raise CustomError()', 'raise ValueError() from KeyError()',
     'raise ValueError from KeyError()', 'raise module.ValueError()', 'raise (ValueError())', 'raise ValueError(*arguments)',
+    'raise ImportError(name=value_name)', 'raise ValueError(**keyword_arguments)', 'raise ValueError() from KeyError(key=value_name)',
     'result = 1 + 2', 'result = 10 * 10 * 10',
 ]
 
 FUNCTION_STATEMENTS = [
     'return None', 'return', 'return None\npass', 'value = 1\nreturn None', 'value = 1\nreturn', 'if value:\n    return None\nreturn 1',
     'def inner():\n    return None', 'return (None)', 'return None if value else 1', 'yield\nreturn None', 'return not None',
+    # a valueless return that ends a *block* is not redundant unless the block also ends the function
+    'try:\n    first_call()\n    return\nexcept SomeError:\n    second_call()\nelse:\n    third_call()',
+    'try:\n    first_call()\n    return None\nexcept SomeError:\n    second_call()\n    return\nelse:\n    third_call()\nfinally:\n    fourth_call()',
+    'try:\n    first_call()\nexcept SomeError:\n    second_call()\n    return\nfinally:\n    fourth_call()\n    return',
+    'if value:\n    first_call()\n    return\nelse:\n    second_call()\n    return None',
+    'if value:\n    first_call()\n    return\nsecond_call()', 'with value:\n    first_call()\n    return',
+    'for loop_item in value:\n    first_call()\n    return', 'while value:\n    first_call()\n    return\nelse:\n    second_call()\n    return',
+    'if value:\n    try:\n        first_call()\n        return\n    except SomeError:\n        pass\n    else:\n        second_call()',
+    'match value:\n    case 1:\n        first_call()\n        return\n    case _:\n        return None',
+    'raise ImportError(name=value)', 'raise ValueError(**value)', 'raise ValueError() from KeyError(key=value)', 'raise OSError(*value, **value)',
 ]
 
 ANNOTATED = [
